@@ -56,14 +56,32 @@ func init() {
 
 func groupServe(c *Ctx) *ssa.Function { return c.P.MustFunc("mux.(*Group).ServeHTTP") }
 
-// matcherInvokes: the Matcher.Match invocations of f.
+// matcherInvokes: the Matcher.Match invocations of f and of the helpers it calls on the same receiver type
+// (matchRouter-style extractions).
 func matcherInvokes(f *ssa.Function) []*ssa.Call {
 	var out []*ssa.Call
-	an.AllInstrs(f, func(in ssa.Instruction) {
-		if call, ok := in.(*ssa.Call); ok && an.CalleeName(&call.Call) == "invoke:mux.Matcher.Match" {
-			out = append(out, call)
+	seen := map[*ssa.Function]bool{}
+	var walk func(g *ssa.Function, depth int)
+	walk = func(g *ssa.Function, depth int) {
+		if seen[g] || depth > 2 {
+			return
 		}
-	})
+		seen[g] = true
+		an.AllInstrs(g, func(in ssa.Instruction) {
+			call, ok := in.(*ssa.Call)
+			if !ok {
+				return
+			}
+			if an.CalleeName(&call.Call) == "invoke:mux.Matcher.Match" {
+				out = append(out, call)
+				return
+			}
+			if h := an.StaticCallee(&call.Call); h != nil && an.InModule(h) && sameRecvType(h, f) {
+				walk(h, depth+1)
+			}
+		})
+	}
+	walk(f, 0)
 	return out
 }
 
@@ -87,16 +105,26 @@ func ruleGroupScan(c *Ctx, rule string) {
 		}
 		var serveCall ssa.Instruction
 		an.AllInstrs(f, func(in ssa.Instruction) {
-			if call, ok := calleeIs(in, serve); ok && an.AP(call.Args[0]) == an.AP(routerOfMatcher(m)) {
+			call, ok := calleeIs(in, serve)
+			if !ok {
+				return
+			}
+			if an.AP(call.Args[0]) == an.AP(routerOfMatcher(m)) {
 				serveCall = in
+			}
+			// the accepting router handed back by a helper: served is what the helper returned
+			if hc, isCall := call.Args[0].(*ssa.Call); isCall && m.Parent() != f {
+				if an.StaticCallee(&hc.Call) == m.Parent() {
+					serveCall = in
+				}
 			}
 		})
 		good := serveCall != nil
 		why := "the accepting router is not served"
 		if good {
 			// every path from the accept edge to a return passes serveCall; after it no further matcher
-			p1 := (&an.Query{Assume: assume, Target: func(t ssa.Instruction) bool { _, ok := t.(*ssa.Return); return ok }, Block: func(t ssa.Instruction) bool { return t == serveCall }}).Search(an.After(m))
-			p2 := (&an.Query{Target: func(t ssa.Instruction) bool {
+			p1 := (&an.Query{Assume: assume, Ascend: 1, Facts: true, InitNeq: map[string][]string{an.ValueKey(routerOfMatcher(m)): {"nil"}}, Target: func(t ssa.Instruction) bool { _, ok := t.(*ssa.Return); return ok && t.Parent() == f }, Block: func(t ssa.Instruction) bool { return t == serveCall }}).Search(an.After(m))
+			p2 := (&an.Query{Deep: deepDefault, Descend: func(g *ssa.Function) bool { return g != serve }, Target: func(t ssa.Instruction) bool {
 				if call, ok := t.(*ssa.Call); ok {
 					n := an.CalleeName(&call.Call)
 					return n == "invoke:mux.Matcher.Match" || strings.HasPrefix(n, "dynamic:")
@@ -180,7 +208,7 @@ func ruleGroupRejectionUndo(c *Ctx, rule string) {
 				return n == "invoke:mux.Matcher.Match" || strings.HasPrefix(n, "dynamic:")
 			}
 			_, isRet := t.(*ssa.Return)
-			return isRet
+			return isRet && t.Parent() == f
 		}
 		effects := []struct {
 			name string
@@ -205,7 +233,9 @@ func ruleGroupRejectionUndo(c *Ctx, rule string) {
 		}
 		for _, e := range effects {
 			e := e
-			path := (&an.Query{Assume: assume, Target: target, Block: e.is}).Search(an.After(m))
+			path := (&an.Query{Assume: assume, Target: target, Block: e.is, Ascend: 1, Deep: deepDefault, Descend: func(g *ssa.Function) bool {
+				return sameRecvType(g, f)
+			}}).Search(an.After(m))
 			o := c.R.Add(rule, c.fk(f), "reject:"+e.name, c.pos(m), path == nil, ifelse(path == nil, "every path from the rejection to the next attempt performs it", e.bad))
 			if path != nil {
 				o.Path = c.P.PathString(path)
@@ -287,10 +317,37 @@ func ruleGroupMisc(c *Ctx, rule string) {
 func ruleHostsNormalised(c *Ctx, rule string) {
 	a := c.A
 	c.R.Rule(c.R.Property+"."+rule, 3, "Add and Delete treat domain names case-insensitively, like Match")
-	isLowered := func(v ssa.Value) bool {
-		t := c.O.Of(v)
-		return t.Op == "call" && t.S == "strings.ToLower"
+	var isLoweredVal func(v ssa.Value, depth int) bool
+	isLoweredVal = func(v ssa.Value, depth int) bool {
+		if t := c.O.Of(v); t.Op == "call" && t.S == "strings.ToLower" {
+			return true
+		}
+		if depth > 3 {
+			return false
+		}
+		switch x := v.(type) {
+		case *ssa.Phi:
+			for _, e := range x.Edges {
+				if !isLoweredVal(e, depth+1) {
+					return false
+				}
+			}
+			return len(x.Edges) > 0
+		case *ssa.Call:
+			// a helper of the module that lower-cases what it returns, on every path
+			if g := an.StaticCallee(&x.Call); g != nil && an.InModule(g) && len(g.Blocks) > 0 {
+				rets := an.Returns(g)
+				for _, r := range rets {
+					if len(r.Results) != 1 || !isLoweredVal(an.ReturnValue(r, 0), depth+1) {
+						return false
+					}
+				}
+				return len(rets) > 0
+			}
+		}
+		return false
 	}
+	isLowered := func(v ssa.Value) bool { return isLoweredVal(v, 0) }
 	for _, f := range c.libFuncs() {
 		if f.Signature.Recv() == nil || !strings.HasPrefix(an.FuncKey(f), "mux.(*Hosts).") {
 			continue
@@ -340,7 +397,18 @@ func ruleHostsGuards(c *Ctx, rule string) {
 		}
 	}
 	if calls == 0 {
-		c.R.Add(rule, c.fk(f), "cut:port/behind:validOptionalPort(rest)", c.P.Pos(f.Pos()), false, "Hosts.Match no longer validates the text after the last ':' as a port before cutting it: hosts with a non-numeric 'port' are accepted")
+		// no validator function: the validation may be written out next to the cut (checked per cut below)
+		inline := false
+		for _, fn := range hostFuncs {
+			an.AllInstrs(fn, func(in ssa.Instruction) {
+				if sl, ok := in.(*ssa.Slice); ok && sl.Low == nil && sl.High != nil && cutBehindDigitLoop(sl) {
+					inline = true
+				}
+			})
+		}
+		if !inline {
+			c.R.Add(rule, c.fk(f), "cut:port/behind:validOptionalPort(rest)", c.P.Pos(f.Pos()), false, "Hosts.Match no longer validates the text after the last ':' as a port before cutting it: hosts with a non-numeric 'port' are accepted")
+		}
 	}
 	// the two cuts are cumulative: some alternative of the looked-up host went through both ("[::1]:8080")
 	an.AllInstrs(f, func(in ssa.Instruction) {
@@ -358,48 +426,51 @@ func ruleHostsGuards(c *Ctx, rule string) {
 		c.R.Add(rule, c.fk(f), "lookup:host/port-cut-and-bracket-strip-compose", c.pos(in), composed, ifelse(composed, "a host can lose both its port and its brackets", "no alternative of the looked-up host is both cut at the port and stripped of its brackets (the looked-up value is "+t.String()+"): '[::1]:8080' keeps its brackets and no longer matches the registered '::1'"))
 	})
 	for _, hf := range hostFuncs {
-	f := hf
-	an.AllInstrs(f, func(in ssa.Instruction) {
-		sl, ok := in.(*ssa.Slice)
-		if !ok {
-			return
-		}
-		switch {
-		case sl.Low == nil && sl.High != nil:
-			// h[:i] : behind validOptionalPort(h[i:]) and i != -1
-			dom := an.DominatedByEdge(in, func(b *ssa.BasicBlock, succ int) bool {
-				return edgeHas(b, succ, func(cond ssa.Value, truth bool) bool {
-					call, ok := cond.(*ssa.Call)
-					if !ok || !truth {
-						return false
-					}
-					if g := an.StaticCallee(&call.Call); vop == nil || g != vop {
-						return false
-					}
-					arg, ok := call.Call.Args[0].(*ssa.Slice)
-					return ok && arg.X == sl.X && arg.Low == sl.High && arg.High == nil
-				})
-			})
-			c.R.Add(rule, c.fk(f), "cut:port/behind:validOptionalPort(rest)", c.pos(in), dom, ifelse(dom, "the cut happens only when the text after the last ':' is a valid port", "the host is cut at ':' without validating that the rest is a port (an IPv6 literal loses its last group)"))
-		case sl.Low != nil && sl.High != nil:
-			if k, isC := sl.Low.(*ssa.Const); isC && k.Value != nil && k.Int64() == 1 {
-				has := func(fn, lit string) bool {
-					return an.DominatedByEdge(in, func(b *ssa.BasicBlock, succ int) bool {
-						return edgeHas(b, succ, func(cond ssa.Value, truth bool) bool {
-							call, ok := cond.(*ssa.Call)
-							if !ok || !truth || an.CalleeName(&call.Call) != fn {
-								return false
-							}
-							s, isS := strConst(call.Call.Args[1])
-							return isS && s == lit && an.AP(call.Call.Args[0]) == an.AP(sl.X)
-						})
-					})
-				}
-				good := has("strings.HasPrefix", "[") && has("strings.HasSuffix", "]")
-				c.R.Add(rule, c.fk(f), "strip:brackets/behind:HasPrefix[&&HasSuffix]", c.pos(in), good, ifelse(good, "brackets are stripped only when both are present", "brackets are stripped without testing both ends (slice bounds fault on \"[\" alone, or a host losing its first/last byte)"))
+		f := hf
+		an.AllInstrs(f, func(in ssa.Instruction) {
+			sl, ok := in.(*ssa.Slice)
+			if !ok {
+				return
 			}
-		}
-	})
+			switch {
+			case sl.Low == nil && sl.High != nil:
+				// h[:i] : behind validOptionalPort(h[i:]) and i != -1
+				dom := an.DominatedByEdge(in, func(b *ssa.BasicBlock, succ int) bool {
+					return edgeHas(b, succ, func(cond ssa.Value, truth bool) bool {
+						call, ok := cond.(*ssa.Call)
+						if !ok || !truth {
+							return false
+						}
+						if g := an.StaticCallee(&call.Call); vop == nil || g != vop {
+							return false
+						}
+						arg, ok := call.Call.Args[0].(*ssa.Slice)
+						return ok && arg.X == sl.X && arg.Low == sl.High && arg.High == nil
+					})
+				})
+				if !dom {
+				dom = cutBehindDigitLoop(sl)
+			}
+			c.R.Add(rule, c.fk(f), "cut:port/behind:validOptionalPort(rest)", c.pos(in), dom, ifelse(dom, "the cut happens only when the text after the last ':' is a valid port", "the host is cut at ':' without validating that the rest is a port (an IPv6 literal loses its last group)"))
+			case sl.Low != nil && sl.High != nil:
+				if k, isC := sl.Low.(*ssa.Const); isC && k.Value != nil && k.Int64() == 1 {
+					has := func(fn, lit string) bool {
+						return an.DominatedByEdge(in, func(b *ssa.BasicBlock, succ int) bool {
+							return edgeHas(b, succ, func(cond ssa.Value, truth bool) bool {
+								call, ok := cond.(*ssa.Call)
+								if !ok || !truth || an.CalleeName(&call.Call) != fn {
+									return false
+								}
+								s, isS := strConst(call.Call.Args[1])
+								return isS && s == lit && an.AP(call.Call.Args[0]) == an.AP(sl.X)
+							})
+						})
+					}
+					good := has("strings.HasPrefix", "[") && has("strings.HasSuffix", "]")
+					c.R.Add(rule, c.fk(f), "strip:brackets/behind:HasPrefix[&&HasSuffix]", c.pos(in), good, ifelse(good, "brackets are stripped only when both are present", "brackets are stripped without testing both ends (slice bounds fault on \"[\" alone, or a host losing its first/last byte)"))
+				}
+			}
+		})
 	}
 }
 
@@ -694,6 +765,18 @@ func noDuplicateNameEdge(b *ssa.BasicBlock, succ int) bool {
 		if !ok {
 			return false
 		}
+		// the group's own lookup by name found nothing: g.Router(name) == nil
+		if g := an.StaticCallee(&call.Call); g != nil && an.InModule(g) && an.IsNilConst(bo.Y) && len(call.Call.Args) == 2 && an.AP(call.Call.Args[0]) == "recv" {
+			if _, isPtr := call.Type().Underlying().(*types.Pointer); isPtr && returnsRouterByName(g) {
+				switch bo.Op {
+				case token.EQL:
+					return truth
+				case token.NEQ:
+					return !truth
+				}
+			}
+			return false
+		}
 		if n := an.CalleeName(&call.Call); n != "slices.IndexFunc" {
 			return false
 		}
@@ -789,7 +872,6 @@ func ruleGroupStateOnEveryPath(c *Ctx, rule string) {
 		o.Path = c.P.PathString(path)
 	}
 }
-
 
 // sliceAlts enumerates, for a string value, the combinations of cuts its alternatives went through on the way from
 // the original text: bit 0 = a prefix kept (`x[:i]`, the port cut), bit 1 = first and last byte dropped (`x[1:…]`,
@@ -895,4 +977,145 @@ func sliceAlts(v ssa.Value, env map[*ssa.Parameter][]int, depth int) []int {
 		return uniq(out)
 	}
 	return []int{0}
+}
+
+
+// sameRecvType: both are methods of the same (possibly generic) named type.
+func sameRecvType(f, g *ssa.Function) bool {
+	named := func(h *ssa.Function) *types.Named {
+		if h.Signature.Recv() == nil {
+			return nil
+		}
+		t := h.Signature.Recv().Type()
+		if p, ok := t.(*types.Pointer); ok {
+			t = p.Elem()
+		}
+		n, _ := types.Unalias(t).(*types.Named)
+		if n == nil {
+			return nil
+		}
+		return n.Origin()
+	}
+	a, b := named(f), named(g)
+	return a != nil && a == b
+}
+
+
+// returnsRouterByName: a lookup of the group's routers by name — every non-nil result is an element of the
+// receiver's router list.
+func returnsRouterByName(g *ssa.Function) bool {
+	if g.Signature.Params().Len() != 1 {
+		return false
+	}
+	if b, ok := g.Signature.Params().At(0).Type().Underlying().(*types.Basic); !ok || b.Kind() != types.String {
+		return false
+	}
+	n := 0
+	for _, r := range an.Returns(g) {
+		if len(r.Results) != 1 {
+			return false
+		}
+		v := an.ReturnValue(r, 0)
+		if an.IsNilConst(v) {
+			continue
+		}
+		if !strings.HasPrefix(an.AP(v), "recv.routers[]") {
+			return false
+		}
+		n++
+	}
+	return n > 0
+}
+
+
+// cutBehindDigitLoop: the cut `x[:i]` is reachable only after a loop over the text behind position i completed, and
+// that loop leaves (without reaching the cut) on any byte outside '0'..'9' — the port validation written in line.
+func cutBehindDigitLoop(sl *ssa.Slice) bool {
+	f := sl.Parent()
+	type loop struct {
+		slice ssa.Value
+		hb    *ssa.BasicBlock
+		elems []ssa.Instruction
+	}
+	var loops []loop
+	for _, l := range rangeLoops(f) {
+		loops = append(loops, loop{l.slice, l.hdr.Block(), l.elems})
+	}
+	// range over a string: Range / Next, the rune is extract #2 of the Next tuple
+	an.AllInstrs(f, func(in ssa.Instruction) {
+		nx, ok := in.(*ssa.Next)
+		if !ok || !nx.IsString {
+			return
+		}
+		rg, ok := nx.Iter.(*ssa.Range)
+		if !ok {
+			return
+		}
+		l := loop{slice: rg.X, hb: nx.Block()}
+		for _, r := range *nx.Referrers() {
+			if ex, ok := r.(*ssa.Extract); ok && ex.Index == 2 {
+				l.elems = append(l.elems, ex)
+			}
+		}
+		loops = append(loops, l)
+	})
+	for _, l := range loops {
+		src, ok := l.slice.(*ssa.Slice)
+		if !ok || an.AP(src.X) != an.AP(sl.X) || src.Low == nil {
+			continue
+		}
+		// the scanned text starts at i or i+1
+		low := src.Low
+		if bo, isBo := low.(*ssa.BinOp); isBo && bo.Op == token.ADD {
+			low = bo.X
+		}
+		if low != sl.High {
+			continue
+		}
+		hb := l.hb
+		// the cut is not reachable without leaving the loop through its header
+		if (&an.Query{Target: func(t ssa.Instruction) bool { return t == ssa.Instruction(sl) }, BlockEdge: func(b *ssa.BasicBlock, succ int) bool { return b == hb && succ == 1 }}).Search(an.Entry(f)) != nil {
+			continue
+		}
+		// a byte below '0' or above '9' never reaches the cut
+		okAll := len(l.elems) > 0
+		for _, bad := range []struct {
+			op token.Token
+			k  int64
+		}{{token.LSS, 48}, {token.GTR, 57}} {
+			bad := bad
+			found := false
+			for _, e := range l.elems {
+				path := (&an.Query{
+					Assume: func(cond ssa.Value) (bool, bool) {
+						v, neg := stripNot(cond)
+						bo, ok := v.(*ssa.BinOp)
+						if !ok {
+							return false, false
+						}
+						k, isC := bo.Y.(*ssa.Const)
+						if !isC || k.Value == nil {
+							return false, false
+						}
+						if bo.Op == bad.op && k.Int64() == bad.k {
+							found = true
+							return !neg, true
+						}
+						return false, false
+					},
+					Target: func(t ssa.Instruction) bool { return t == ssa.Instruction(sl) },
+				}).Search(an.After(e))
+				if path != nil {
+					okAll = false
+				}
+			}
+			if !found {
+				okAll = false
+			}
+		}
+		if okAll {
+			return true
+		}
+	}
+	return false
 }
